@@ -69,8 +69,9 @@ PlanLocal ==
 ParticlesExchangeable ==
   DoneEval /\ P >= 2 => \A s \in 1..S :
       Eval(acts, [traj EXCEPT ![s] = [p \in 1..P |-> traj[s][P + 1 - p]]]) = Eval(acts, traj)
-(* with a single particle and horizon 1 the value is the table entry itself *)
-UnitCase == DoneEval /\ P = 1 /\ H = 1 => \A s \in 1..S : Eval(acts, traj)[s] = Reward(acts[s][1], traj[s][1][1])
+(* with a single particle the value is the plain sum of the table entries along the horizon *)
+UnitCase == DoneEval /\ P = 1 => \A s \in 1..S :
+              Eval(acts, traj)[s] = QSum([t \in 1..H |-> Reward(acts[s][t], traj[s][1][t])])
 
 (* ----------------------------------------------------------------- TsInf --- *)
 O  == dims[4]
@@ -118,7 +119,21 @@ Propagate == /\ stage = 3
              /\ stage' = 4 /\ UNCHANGED <<dims, acts, traj, par>>
              /\ EMIT => PrintT(<<"EMIT", ToJson([dims |-> dims, par |-> par, acts |-> acts, model_idx |-> traj,
                                                exp |-> TsInf(par, traj, acts)])>>)
-NextProp == ChooseDimsP \/ ChooseParamsP \/ ChoosePlanP \/ Propagate
+
+(* noise vectors: one TS-inf step; the change of output k through member i is Normal with     *)
+(* standard deviation exp(1/2 SoftClamp_k(raw[i][k])) - output k's OWN raw log-variance.       *)
+(* raw values alternate between the saturating ends, so that the scale is a named constant:   *)
+(* class "lo" -> exp(Lo_k / 2), class "softhi" -> exp(SoftHi_k / 2).                            *)
+NoiseRaw(q, o) == [i \in 1..E |-> [k \in 1..o |-> IF (i + k + q) % 2 = 0 THEN -10000 ELSE 10000]]
+NoiseClass(raw) == IF raw = -10000 THEN "lo" ELSE "softhi"
+ChooseNoise == /\ stage = 0
+               /\ \E o \in 1..3, q \in 0..1 :
+                    /\ par' = [nout |-> o, lb |-> NoiseRaw(q, o),
+                               cls |-> [i \in 1..E |-> [k \in 1..o |-> NoiseClass(NoiseRaw(q, o)[i][k])]]]
+                    /\ EMIT => PrintT(<<"EMIT", ToJson([noise |-> par'])>>)
+               /\ stage' = 5 /\ UNCHANGED <<dims, acts, traj>>
+
+NextProp == ChooseDimsP \/ ChooseParamsP \/ ChoosePlanP \/ Propagate \/ ChooseNoise
 
 DoneProp == stage = 4
 (* a particle never changes its member, and particles with the same member and plan share the mean trajectory *)
